@@ -25,6 +25,7 @@ fn streams() -> Vec<Stream> {
         Stream { name: "function-lattice", count: (LATTICE.len() as u64 * 6 * 40, LATTICE.len() as u64 * 6 * 400), exhaustive: false, run: fn_lattice },
         Stream { name: "function-random", count: (120_000, 3_000_000), exhaustive: false, run: fn_random },
         Stream { name: "scenarios", count: (25_000, 800_000), exhaustive: false, run: |c, r, _| scenario(c, r, Focus::default(), c07_monitor) },
+        Stream { name: "scenarios-tuned-change", count: (24_000, 800_000), exhaustive: false, run: |c, r, _| scenario_tuned(c, r, Focus { coin_select: 3, ..Focus::default() }, c07_monitor) },
         Stream { name: "scenarios-tight", count: (20_000, 600_000), exhaustive: false, run: tight },
         Stream { name: "add-output-edge", count: (30_000, 800_000), exhaustive: false, run: add_output_edge },
         Stream { name: "scenarios-squeezed", count: (20_000, 600_000), exhaustive: false, run: squeezed },
